@@ -31,19 +31,10 @@ _ANSI = re.compile(r"\x1b\[[0-9;]*m")
 
 # finding classes: construct labels -> (KF id, exception classes)
 KF_BY_LABEL = {
-    "star import dotted": ("KF_C07_1", ("ValueError",)),
-    "from stdlib dotted import star": ("KF_C07_1", ("ValueError",)),
-    "def with subscript decorator": ("KF_C07_2", ("TypeError",)),
-    "def with arithmetic decorator": ("KF_C07_2", ("TypeError",)),
-    "def with lambda decorator": ("KF_C07_2", ("TypeError",)),
     "sorted key lambda two params": ("KF_C07_3", ("SyntaxError",)),
     "store through unnameable receiver": ("KF_C07_4", ("RattrBinOpInNameable",)),
     "for target unnameable": ("KF_C07_4", ("RattrBinOpInNameable",)),
     "del unnameable": ("KF_C07_4", ("RattrBinOpInNameable",)),
-    "star import extension module": ("KF_C07_7", ("UnicodeDecodeError",)),
-    "reexport cycle": ("KF_C07_6", ("RecursionError",)),
-    "one file under two module names": ("KF_C07_5", ("ImportError", "ModuleNotFoundError")),
-    "follow into stdlib extension module": ("KF_C07_7", ("UnicodeDecodeError", "FileNotFoundError")),
 }
 FA_RAISE_CLASSES = {"RattrBinOpInNameable", "RattrUnaryOpInNameable", "RattrConstantInNameable", "RattrLiteralInNameable", "RattrComprehensionInNameable"}
 
